@@ -173,3 +173,25 @@ fn rendezvous_channel_takes_the_message_of_a_sender_that_is_already_blocked() {
         check(&got, 1, 1);
     }
 }
+
+#[test]
+fn more_queued_messages_than_one_batch_are_all_delivered_without_further_wakeups() {
+    // everything is queued before the first dispatch and nobody sends (or drops) afterwards: only the loop's own
+    // wake-up can get it past the per-dispatch batch limit -- for the unbounded and for large bounded channels
+    for cap in [None, Some(2048usize), Some(1500)] {
+        let mut el: EventLoop<Got> = EventLoop::try_new().unwrap();
+        let keep: Box<dyn std::any::Any> = match cap {
+            None => { let (tx, rx) = channel(); el.handle().insert_source(rx, cb).unwrap(); for i in 0..1500 { tx.send((0, i)).unwrap(); } Box::new(tx) }
+            Some(c) => { let (tx, rx) = sync_channel(c); el.handle().insert_source(rx, cb).unwrap(); for i in 0..1500 { tx.try_send((0, i)).unwrap(); } Box::new(tx) }
+        };
+        let mut got = Got::default();
+        let t = Instant::now();
+        while got.msgs.len() < 1500 {
+            el.dispatch(Duration::from_millis(50), &mut got).unwrap();
+            assert!(t.elapsed() < Duration::from_secs(3), "capacity {:?}: {} of 1500 delivered, the rest is queued without a pending wake-up", cap, got.msgs.len());
+        }
+        assert_eq!(got.msgs.iter().map(|m| m.1).collect::<Vec<_>>(), (0..1500).collect::<Vec<_>>());
+        assert_eq!(got.closed, 0);
+        drop(keep);
+    }
+}
